@@ -23,7 +23,7 @@ NSHARDS = {"quick": 16, "thorough": 16}
 THRESHOLDS = {
     "quick": {"repotests:ambient:gen:gen_dfs?repotests:runs": 50, "c12:not-flagged": 500, "c12:perc-strict-subset": 200, "c12:no-forks-nontrivial": 100, "c12:random-path-ok": 1000,
               "c12:exact-count-checked": 300, "c12:gen_dfs": 500, "c12:gen_wilson": 100, "c12:gen_percolation": 300,
-              "c12:gen_dfs_percolation": 300, "c12:get_connected_component": 500, "c12:threaded-generations": 200, "c12:metadata-rejudged-after-draws": 1000, "c12:random-path-with-options": 3000, "c12:option-draws-judged-against-recorded-component": 2000, "c12:refused-option-draws-judged": 50, "hits:gen_dfs": 1},
+              "c12:gen_dfs_percolation": 300, "c12:get_connected_component": 500, "c12:threaded-generations": 200, "c12:metadata-rejudged-after-draws": 1000, "c12:random-path-with-options": 3000, "c12:callers-start-array-changed-afterwards": 100, "c12:reloaded-mazes": 300, "c12:option-draws-judged-against-recorded-component": 2000, "c12:refused-option-draws-judged": 50, "hits:gen_dfs": 1},
 }
 THRESHOLDS["thorough"] = dict(THRESHOLDS["quick"])
 ANCHORS = [
@@ -68,7 +68,13 @@ def run(ctx):
             dts = [np.int64, np.int32, np.int8, np.uint8, np.int16]
             dt = dts[i % len(dts)] if gen != "gen_wilson" else np.int64
             case["shape_dtype"] = np.dtype(dt).name
-            maze = GENERATORS_MAP[gen](np.array([R, C], dtype=dt), **kw)
+            kw_call, sc_arr = kw, None
+            if kw.get("start_coord") is not None and i % 3 == 0:
+                # the start handed over as the caller's own array (which the caller goes on using afterwards, see below)
+                sc_arr = np.array(kw["start_coord"])
+                kw_call = dict(kw, start_coord=sc_arr)
+                case["start_coord_as_callers_array"] = True
+            maze = GENERATORS_MAP[gen](np.array([R, C], dtype=dt), **kw_call)
             # (if the watchdog fires the block is left here and the case is reported as inconclusive)
             ctx.ev()
             g = Graph(maze.connection_list)
@@ -85,6 +91,72 @@ def run(ctx):
                 ctx.sample(dict(case=case, meta={k: (v if not hasattr(v, "__len__") or isinstance(v, str) else f"<{len(v)} cells>")
                                                  for k, v in meta.items()}))
             _random_paths(ctx, maze, g, case, 6 if ctx.quick else 10)
+            if sc_arr is not None:
+                # the caller moves on: its coordinate array is advanced / re-used in place; what the maze records may not move with it
+                if i % 2:
+                    sc_arr += 1
+                else:
+                    sc_arr[:] = [R + 5, -7]
+                ctx.tally("c12:callers-start-array-changed-afterwards")
+                oracles.check_c12(ctx, gen, (R, C), kw, maze, g, dict(case, after="the caller changed its own start_coord array in place"))
+    _reloaded(ctx, 60 if ctx.quick else 600)
+
+
+def _reloaded(ctx, n):
+    """mazes as they come back from a dataset round trip: whatever generation metadata a maze object carries afterwards still has to
+    be true of that maze (a flag 'fully connected' only on a connected maze, recorded visited cells = the cells reachable from the
+    recorded start); carrying none is fine"""
+    import warnings
+
+    from maze_dataset import MazeDataset, MazeDatasetConfig
+    from maze_dataset.generation.generators import GENERATORS_MAP
+
+    specs = [("gen_dfs", dict(accessible_cells=6)), ("gen_dfs", dict(accessible_cells=0.3)), ("gen_dfs_percolation", dict(p=0.2, accessible_cells=8)),
+             ("gen_percolation", dict(p=0.3)), ("gen_dfs", dict(max_tree_depth=3)), ("gen_dfs", {}), ("gen_prim", dict(accessible_cells=5)),
+             ("gen_dfs_percolation", dict(p=0.1))]
+    for j in range(n):
+        if not ctx.mine(j):
+            continue
+        gen, kw = specs[j % len(specs)]
+        fmt = ["_serialize_minimal", "_serialize_minimal_soln_cat", "_serialize_full"][(j // len(specs)) % 3]
+        case0 = dict(kind="reloaded", gen=gen, kwargs=kw, format=fmt, j=j)
+        with warnings.catch_warnings():
+            warnings.simplefilter("ignore")
+            try:
+                cfg = MazeDatasetConfig(name=f"c12r{j}", grid_n=5, n_mazes=[4, 7, 100][j % 3] if fmt != "_serialize_full" else 4, maze_ctor=GENERATORS_MAP[gen],
+                                        maze_ctor_kwargs=dict(kw), seed=1000 + j)
+                ds = MazeDataset.generate(cfg)
+                back = MazeDataset.load(getattr(ds, fmt)())
+            except Exception as e:  # noqa: BLE001
+                ctx.tally(f"c12:reload-failed:{type(e).__name__}(not judged here)")
+                continue
+        for t, m in enumerate(back.mazes):
+            meta = m.generation_meta
+            ctx.ev(); ctx.tally("c12:reloaded-mazes")
+            if not meta:
+                ctx.tally("c12:reloaded-mazes-without-metadata")
+                continue
+            ctx.tally("c12:reloaded-mazes-with-metadata")
+            g = Graph(m.connection_list)
+            case = dict(case0, index=t, cl=np.asarray(m.connection_list))
+            if meta.get("fully_connected"):
+                ctx.check(g.connected(), "C12/flagged-fully-connected-but-is-not",
+                          lambda: f"after a {fmt} round trip the maze is flagged fully connected; component sizes: {sorted(__import__('collections').Counter(g.components().values()).values())[:6]}", case)
+            vc = oracles._as_cellset(meta.get("visited_cells"))
+            if vc is not None and meta.get("start_coord") is not None:
+                sc = tuple(int(x) for x in meta["start_coord"])
+                if g.in_grid(sc):
+                    ctx.check(vc == set(g.component_of(sc)), "C12/visited-cells-not-the-component-of-start", f"after a {fmt} round trip: |visited|={len(vc)} |component|={len(g.component_of(sc))}", case)
+            # endpoints drawn for it are mutually reachable
+            if g.R >= 2 and g.C >= 2:
+                for _ in range(3):
+                    try:
+                        path = m.generate_random_path()
+                    except ValueError:
+                        ctx.tally("c12:reloaded-random-path-rejected(not judged)")
+                        break
+                    prob = g.path_problems(path)
+                    ctx.check(prob is None, "C12/random-path-uses-non-edge", lambda: f"reloaded maze: {prob}", case)
 
 
 def _threaded(ctx, n_rounds):
